@@ -17,8 +17,6 @@ package logdb
 import (
 	"math"
 
-	"github.com/cockroachdb/errors"
-
 	"github.com/lni/dragonboat/v4/internal/logdb/kv"
 	"github.com/lni/dragonboat/v4/raftio"
 	pb "github.com/lni/dragonboat/v4/raftpb"
@@ -348,16 +346,23 @@ func (be *batchedEntries) record(wb kv.IWriteBatch,
 func (be *batchedEntries) getBatchFromDB(shardID uint64,
 	replicaID uint64, batchID uint64) (pb.EntryBatch, bool) {
 	var e pb.EntryBatch
+	found := false
 	k := be.keys.get()
 	defer k.Release()
 	k.SetEntryBatchKey(shardID, replicaID, batchID)
 	if err := be.kvs.GetValue(k.Key(), func(data []byte) error {
 		if len(data) == 0 {
-			return errors.New("no such entry")
+			return nil
 		}
+		found = true
 		pb.MustUnmarshal(&e, data)
 		return nil
 	}); err != nil {
+		// a storage error is not the same as a missing batch, the caller would
+		// otherwise overwrite or skip the batch that is actually there
+		panic(err)
+	}
+	if !found {
 		return e, false
 	}
 	if len(e.Entries) > 1 {
